@@ -12,12 +12,14 @@ RULE = ('cases = (class MPS|MPO, mode left|right, physical charges of dimension 
         'lists constructed along 1..3 complete charge paths plus extra reachable / junk charges in drawn order (sorted, unsorted, '
         'repeated, bond dimension 1, over-complete, sector-disjoint = zero state), entry style: complex / real / integer-valued / integer dtype / '
         'duplicated columns / zeroed blocks). Non-trivial: non-zero state, L >= 2 and some bond dimension >= 2.')
-ASSUME = ['dense reach d^L <= 4096 (MPO: d^(2L) <= 2^20)', 'tolerances 1e-11 relative to max(1, norm)']
+ASSUME = ['dense reach d^L <= 4096 (MPO: d^(2L) <= 2^20)', 'tolerances 1e-11 relative to max(1, norm); 2e-4 for tensors stored in single precision (complex64 / float32), which the library factorises in single precision']
 
-TOL = 1e-11
+TOL_DOUBLE = 1e-11
+TOL_SINGLE = 2e-4
 
 
-def _common(obj, kind, mode, desc, rec, tmag_override=None):
+def _common(obj, kind, mode, desc, rec, tmag_override=None, tol=None):
+    TOL = tol if tol is not None else TOL_DOUBLE     # single-precision tensors are factorised in single precision
     is_mps = kind == 'mps'
     to_dense = mps_to_vec if is_mps else mpo_to_mat
     maskv = mps_mask_violation if is_mps else mpo_mask_violation
@@ -163,7 +165,22 @@ def _tmag(obj):
     return m
 
 
+def _to_single(obj, which):
+    """The same object with its tensors stored in single precision (complex64 / float32): a legal storage type; the library then works
+    in single precision, so the clauses are judged to 2e-4 instead of 1e-11 (a dropped imaginary part or a wrong factor is O(1))."""
+    if which == 'complex64':
+        obj.A = [np.asarray(a, dtype=complex).astype(np.complex64) for a in obj.A]
+    else:
+        obj.A = [np.asarray(a).real.astype(np.float32) for a in obj.A]
+
+
 def check_mps(case, rec):
+    if case.get('single') and case['obj']['style'] != 'intdtype':
+        psi = build_mps(case['obj'])
+        _to_single(psi, case['single'])
+        rec.label('storage_' + case['single'])
+        _common(psi, 'mps', case['mode'], case['obj'], rec, tol=TOL_SINGLE)
+        return
     if case.get('shared') and len(case['obj']['qD']) - 1 >= 4 and case['obj']['style'] != 'intdtype':
         # translation-invariant bulk: all interior bonds carry the same charge list and ONE ndarray object sits at every bulk site
         # (a legal, user-assembled MPS); the call must not write into tensors it does not own
@@ -188,6 +205,12 @@ def check_mps(case, rec):
 
 
 def check_mpo(case, rec):
+    if case.get('single') and case['obj']['style'] != 'intdtype':
+        op = build_mpo(case['obj'])
+        _to_single(op, case['single'])
+        rec.label('storage_' + case['single'])
+        _common(op, 'mpo', case['mode'], case['obj'], rec, tol=TOL_SINGLE)
+        return
     if case.get('shared') and len(case['obj']['qD']) - 1 >= 4 and case['obj']['style'] != 'intdtype':
         desc = dict(case['obj'])
         qD = desc['qD']; Ls = len(qD) - 1
@@ -234,13 +257,13 @@ def gen_mps(draw, tier):
     sc = draw(st.sampled_from([None, None, None, 1e-3, 2e3]))
     if sc is not None and obj['style'] != 'intdtype':
         obj['scale'] = sc
-    return {'obj': obj, 'mode': draw(st.sampled_from(['left', 'right'])), 'gauge': draw(st.sampled_from([False, False, False, True])), 'shared': draw(st.sampled_from([False, False, True]))}
+    return {'obj': obj, 'mode': draw(st.sampled_from(['left', 'right'])), 'gauge': draw(st.sampled_from([False, False, False, True])), 'shared': draw(st.sampled_from([False, False, True])), 'single': draw(st.sampled_from([None, None, None, None, 'complex64', 'float32']))}
 
 
 @st.composite
 def gen_mpo(draw, tier):
     return {'obj': draw(mpo_desc(Lmin=1, Lmax=4 if tier == 'quick' else 5, Dmax=4 if tier == 'quick' else 6)),
-            'mode': draw(st.sampled_from(['left', 'right'])), 'gauge': draw(st.sampled_from([False, False, False, True])), 'shared': draw(st.sampled_from([False, False, True]))}
+            'mode': draw(st.sampled_from(['left', 'right'])), 'gauge': draw(st.sampled_from([False, False, False, True])), 'shared': draw(st.sampled_from([False, False, True])), 'single': draw(st.sampled_from([None, None, None, None, 'complex64', 'float32']))}
 
 
 @st.composite
